@@ -77,6 +77,7 @@ inductive Ev where
   | closed
   | crash (why : String)
   | setcall (ok : Bool)                 -- get_char() / input_to() returned this
+  | snoop (bytes : List Byte)           -- receive_snoop() in the snooper: the read as a C string
   deriving Repr, BEq, DecidableEq
 
 /-! ### interactive flags and decoder state -/
@@ -474,7 +475,7 @@ def findLF : List Byte → Option Nat
 def asciiLoopOrderModel : List String :=
   ["commitStart", "storeNul", "callback", "revalidate", "resetTest", "advance", "moveRest"]
 def consoleCheckOrderModel : List String := ["emptyTest", "makeRoomTest", "discard", "fitTest"]
-def telnetStoreOrderModel : List String := ["copyChars", "deadTest", "advanceEnd", "terminator", "cmdFlag"]
+def telnetStoreOrderModel : List String := ["copyChars", "deadTest", "advanceEnd", "terminator", "cmdFlag", "snoop"]
 
 inductive LoopEnd where
   | done        -- no further LF
@@ -725,6 +726,7 @@ inductive Op where
   | inputto (noecho : Bool)
   | serve
   | wpipe (bytes : List Byte)
+  | snoopOn
   deriving Repr, BEq
 
 def stEv (s : S) : Ev := .st s.tstart s.tend s.dec.stateNat s.dec.sbPos s.dec.fl.toNat
@@ -741,6 +743,7 @@ structure Run where
   dead : Bool := false      -- crashed: nothing more is executed
   inputTo : Bool := false   -- `ip->input_to != 0`: an input_to() / get_char() is pending
   noEcho : Bool := false    -- NOECHO
+  snoop : Bool := false     -- `ip->snoop_by != 0`
 
 def Run.add (r : Run) (s : S) (evs : List Ev) : Run :=
   let tail := afterStep s
@@ -749,11 +752,57 @@ def Run.add (r : Run) (s : S) (evs : List Ev) : Run :=
 
 def Run.crash (r : Run) (why : String) : Run := { r with evs := r.evs ++ [.crash why], dead := true }
 
+/-- get_user_data, PORT_TELNET, before anything is moved: when neither the space behind `text_end` nor the space
+    after compaction reaches `MAX_TEXT / 16` and a complete command is pending, nothing is read - the new data stays
+    in the socket until commands have been processed (fix 57d7cb1; readiness path `evt == NULL`) -/
+def holdRead (s : S) : Except String Bool :=
+  if s.port != .telnet then .ok false else
+  if s.tend + 1 > MAXT then .error "get_user_data: MAX_TEXT - text_end - 1 wraps" else
+  if (MAXT - s.tend - 1) / spaceDiv < MAXT / compactDiv then
+    if s.tstart > s.tend then .error "get_user_data: text_end - text_start wraps" else
+    if (MAXT - (s.tend - s.tstart) - 1) / holdDiv < MAXT / holdCmpDiv then cmdInBuf s else .ok false
+  else .ok false
+
+/-- get_user_data with the hold test in front -/
+def getUserDataH (o : Oracle) (s : S) : Except String (S × List Ev) :=
+  match holdRead s with
+  | .error e => .error e
+  | .ok true => .ok ({ s with dec := { s.dec with fl := { s.dec.fl with cmdInBuf := true } } }, [])
+  | .ok false => getUserData o s
+
+/-- the data chunk of a read, if it got one -/
+def rxOf : List Ev → Option (List Byte)
+  | [] => none
+  | .rx b :: _ => some b
+  | _ :: r => rxOf r
+
+def isTx : Ev → Bool
+  | .tx _ => true
+  | _ => false
+
+/-- the end of get_user_data's PORT_TELNET branch: after the text is stored and CMD_IN_BUF updated, the read is
+    forwarded to a snooper (`receive_snoop (buf, ..)`, unless NOECHO) - a callback like the others: it may raise an
+    error (get_user_data is left, everything is already committed) or destruct the snooped user.  It is the last thing
+    done with `ip` (fix eca4aec), so it is modelled behind `getUserData`.  Replies are flushed after the step. -/
+def readTail (o : Oracle) (r : Run) (s : S) (evs : List Ev) : Run :=
+  if r.snoop && s.port == .telnet && !s.closed && !r.noEcho then
+    match rxOf evs with
+    | none => r.add s evs
+    | some chunk =>
+      if chunk.isEmpty then r.add s evs else
+      let n := s.cbCount
+      let pre := evs.filter (fun e => !isTx e) ++ [Ev.snoop (cstrOf chunk)]
+      match o n with
+      | .ok => r.add { s with cbCount := n + 1 } (pre ++ evs.filter isTx)
+      | .err => r.add { s with cbCount := n + 1 } (pre ++ [Ev.errmsg n, Ev.cberr] ++ evs.filter isTx)
+      | .dest => r.add { s with cbCount := n + 1, closed := true } (pre ++ evs.filter isTx)
+  else r.add s evs
+
 def doRead (o : Oracle) (r : Run) : Run :=
   if r.dead || r.s.closed then r else
-  match getUserData o r.s with
+  match getUserDataH o r.s with
   | .error e => r.crash e
-  | .ok (s, evs) => r.add s evs
+  | .ok (s, evs) => readTail o r s evs
 
 /-- one extract; returns whether a command was returned -/
 def doExtract (r : Run) : Run × Bool :=
@@ -840,6 +889,7 @@ def stepOp (o : Oracle) (r : Run) (op : Op) : Run :=
   | .finish => finishLoop o 20000 r
   | .line b => doLine r b
   | .wpipe b => doWpipe r b
+  | .snoopOn => if r.s.closed then r else { r with snoop := true }.add r.s []
   | .getchar ne => doSetCall r true ne
   | .inputto ne => doSetCall r false ne
   | .serve => doServe r
